@@ -187,13 +187,13 @@ pub fn expected_struct(s: &StructDesc, m: &ArgMatches) -> Exp {
                 }
             }
             FieldKind::Sub { inner, optional: false } => expected_sub(inner, m)?,
-            FieldKind::Sub { inner, optional: true } => {
-                if m.subcommand().is_some() {
-                    Obs::some(expected_sub(inner, m)?)
-                } else {
-                    Obs::None
-                }
-            }
+            FieldKind::Sub { inner, optional: true } => match m.subcommand() {
+                // a subcommand the field's type does not own (the application added it to the derived command): the
+                // optional field stays empty (`Subcommand::has_subcommand` decides)
+                Some((name, sm)) if !inner.owns(name) && !inner.has_external() && !is_external(sm) => Obs::None,
+                Some(_) => Obs::some(expected_sub(inner, m)?),
+                None => Obs::None,
+            },
         };
         out.push((f.name.to_owned(), v));
     }
